@@ -71,31 +71,31 @@ func (s orgSet) deep() orgSet {
 // An effect is a write to memory that outlives the call, described by the
 // access path from the object it is reached from.
 type effect struct {
-	Path   string // e.g. "Cell.propertyImpl.properties", "elem", "map", "elem of ATable.rows"
-	What   string // store | mapupdate | append | copy | go | opaque:<callee> | delete
-	Org    origin
-	At     ssa.Instruction // the original instruction
-	Fn     *ssa.Function   // function containing At
-	Via    string          // call chain from the summarised function, for diagnostics
-	Fields []*types.Var    // field path (outermost first) when Path is a field path
+	Path    string // e.g. "Cell.propertyImpl.properties", "elem", "map", "elem of ATable.rows"
+	What    string // store | mapupdate | append | copy | go | opaque:<callee> | delete
+	Org     origin
+	At      ssa.Instruction // the original instruction
+	Fn      *ssa.Function   // function containing At
+	Via     string          // call chain from the summarised function, for diagnostics
+	Fields  []*types.Var    // field path (outermost first) when Path is a field path
 	ValDesc string
 }
 
 func (e effect) key() string { return e.Path + "|" + e.What + "|" + e.Org.String() }
 
 type summary struct {
-	Effects map[string]effect
-	Escapes map[int]bool // parameter index whose pointer may be retained beyond the call
-	Fresh   map[int]bool // result index whose value is always an object allocated during the call
-	CallsUnknown bool    // may run code outside the analysed set through an interface or function value
+	Effects      map[string]effect
+	Escapes      map[int]bool // parameter index whose pointer may be retained beyond the call
+	Fresh        map[int]bool // result index whose value is always an object allocated during the call
+	CallsUnknown bool         // may run code outside the analysed set through an interface or function value
 }
 
 // Effects is the whole-program (module + runewidth/uniseg + synthetic wrappers) effect analysis.
 type Effects struct {
-	c     *Ctx
-	sums  map[*ssa.Function]*summary
-	funcs []*ssa.Function
-	cg    *callgraph.Graph
+	c        *Ctx
+	sums     map[*ssa.Function]*summary
+	funcs    []*ssa.Function
+	cg       *callgraph.Graph
 	orgCache map[*ssa.Function]map[ssa.Value]orgSet
 }
 
